@@ -8,8 +8,8 @@
    directories and — without -allowEmptyFolder — all-empty folders left out).
    Items are compared as segment paths; a key is rendered by join_slash. *)
 From Coq Require Import List NArith ZArith Bool String.
-From SW Require Import model.S3List proof.S3ListProofs proof.S3ListSound proof.S3ListExact
-                       proof.S3ListPaging proof.S3ListFlat proof.S3ListRefute.
+From SW Require Import model.S3List model.S3ListMut proof.S3ListProofs proof.S3ListSound proof.S3ListExact
+                       proof.S3ListPaging proof.S3ListFlat proof.S3ListRefute proof.S3ListMut proof.S3ListSingle.
 Import ListNotations.
 Local Open Scope string_scope.
 Local Open Scope list_scope.
@@ -185,4 +185,111 @@ Example c27_example :
   forallb flat1 (filter (fun x => String.prefix (snd (split_prefix "")) (tname x)) t) = true /\
   map pg_keys (paginate 6 false t "" 2 false V2Token "") = [["a"; "d/a"]; ["d/b"; "d/c"]; ["da"]] /\
   map pg_next (paginate 6 false t "" 2 false V2Token "") = ["d/a"; "d/c"; ""].
-Proof. vm_compute. repeat split; reflexivity. Qed.
+Proof. exact flat_example. Qed.
+Print Assumptions c27_example.
+
+(* (iii) Trees of ANY depth, with or without delimiter: ONE request whose max-keys is at
+   least the size of the listing (every listed entry yields something) returns the whole
+   reference listing, "not truncated".  (Paginating a listing two or more directories deep
+   is refuted above: c27_paginate_complete_refuted_deep_token.) *)
+Theorem c27_single_page_complete : forall ae rootk prefix K M delim,
+  wf rootk = true -> bad_prefix prefix = false -> walk rootk (req_dir prefix) = Some K ->
+  ((snd (split_prefix prefix) =? "/") && delim) = false ->
+  forallb (productive ae delim) (filter (fun t => String.prefix (snd (split_prefix prefix)) (tname t)) K) = true ->
+  (1 <= M)%Z -> (Z.of_nat (List.length (ref_list ae rootk prefix delim)) <= M)%Z ->
+  let p := list_objects ae rootk prefix M "" delim in
+  pg_keys p = flat_map key_of (ref_list ae rootk prefix delim) /\
+  pg_cps p = flat_map cp_of (ref_list ae rootk prefix delim) /\
+  pg_trunc p = false /\ pg_next p = "".
+Proof. exact single_page_complete. Qed.
+Print Assumptions c27_single_page_complete.
+
+Example c27_single_page_example :
+  let t := [File "a"; Dir "d" [File "a"; Dir "e" [File "a"; Dir "f" [File "x"]]]; File "d.x"] in
+  wf t = true /\ bad_prefix "" = false /\ walk t (req_dir "") = Some t /\
+  forallb (productive false false) (filter (fun x => String.prefix (snd (split_prefix "")) (tname x)) t) = true /\
+  (Z.of_nat (List.length (ref_list false t "" false)) <= 1000)%Z /\
+  pg_keys (list_objects false t "" 1000 "" false) = ["a"; "d/a"; "d/e/a"; "d/e/f/x"; "d.x"].
+Proof. exact single_page_example. Qed.
+Print Assumptions c27_single_page_example.
+
+(* ================= listing order (finding 6) ================= *)
+
+(* "Every key behind the marker / start-after" is REFUTED where a name extends a directory
+   name by a character below "/": start-after d.x never returns d/a ... *)
+Theorem c27_paginate_complete_refuted_order_clash :
+  let pages := paginate 14 false t_k6 "" 1000 false V2StartAfter "d.x" in
+  wf t_k6 = true /\ ended pages = true /\ all_keys pages = [] /\
+  spec_keys t_k6 "" false "d.x" = ["d/a"] /\
+  enumerates_b false t_k6 "" false "d.x" pages = false /\
+  trigger_of false t_k6 "" false V2StartAfter "d.x" ["d.x"] t_k6 = Some 6%N.
+Proof. exact paginate_incomplete_order_clash. Qed.
+Print Assumptions c27_paginate_complete_refuted_order_clash.
+
+(* ... marker d/a returns d.x, which sorts before the marker ... *)
+Theorem c27_page_sound_refuted_order_clash :
+  wf t_k6b = true /\
+  pg_keys (list_objects false t_k6b "" 1000 "d/a" false) = ["d/b"; "d.x"] /\
+  String.ltb "d.x" "d/a" = true /\
+  page_sound_b false t_k6b "" 1000 false "d/a" (list_objects false t_k6b "" 1000 "d/a" false) = false /\
+  trigger_of false t_k6b "" false V1NextMarker "d/a" ["d/a"] t_k6b = Some 6%N.
+Proof. exact page_unsound_order_clash. Qed.
+Print Assumptions c27_page_sound_refuted_order_clash.
+
+(* ... and the unpaginated listing is not in key order.  (What holds instead: the order
+   of the reference listing, c27_page_sound_partial / c27_page_exact; and complete
+   pagination from the beginning, (i)-(iii), which never sends a client-chosen marker.) *)
+Theorem c27_key_order_refuted :
+  pg_keys (list_objects false t_k6 "" 1000 "" false) = ["d/a"; "d.x"] /\ String.ltb "d.x" "d/a" = true.
+Proof. exact listing_not_in_key_order. Qed.
+Print Assumptions c27_key_order_refuted.
+
+(* ================= a LIST request changes the bucket (finding 7) ================= *)
+
+(* `run_m` (model/S3ListMut.v) is the model the correspondence check evaluates: the
+   pagination loop with the bucket tree threaded through doListFilerEntries and
+   isDirectoryAllEmpty (which deletes what it takes for empty).
+   FULL statement "listing never removes an object": REFUTED, two ways. *)
+Theorem c27_list_readonly_refuted_marker :
+  let r := run_m 14 false t_k7 "" 1000 true V1NextMarker "/" in
+  wf t_k7 = true /\
+  bucket_keys t_k7 = ["a"; "d/a"; "d/e/a"; "da"] /\
+  map (fun mp => pg_keys (snd mp)) (fst r) = [["/a"; "/da"; "a"; "da"]] /\
+  snd r = [File "a"; File "da"] /\
+  bucket_keys (snd r) = ["a"; "da"] /\
+  trigger_of false t_k7 "" true V1NextMarker "/" (map fst (fst r)) (snd r) = Some 7%N.
+Proof. exact list_deletes_objects_marker. Qed.
+Print Assumptions c27_list_readonly_refuted_marker.
+
+Theorem c27_list_readonly_refuted_prefix :
+  let r := run_m 14 false t_k7 "d//" 1000 true V2Token "" in
+  snd r = [File "a"; Dir "d" [File "a"]; File "da"] /\
+  bucket_keys (snd r) = ["a"; "d/a"; "da"] /\
+  trigger_of false t_k7 "d//" true V2Token "" (map fst (fst r)) (snd r) = Some 7%N.
+Proof. exact list_deletes_objects_prefix. Qed.
+Print Assumptions c27_list_readonly_refuted_prefix.
+
+(* Strongest statement proved: without delimiter, or with -allowEmptyFolder, for EVERY
+   tree, prefix, marker, max-keys and continuation style the threaded model answers
+   exactly as the immutable model of the theorems above (same pages, same markers) and
+   the bucket afterwards is the bucket before. *)
+Theorem c27_list_readonly_partial : forall ae delim, ae = true \/ delim = false ->
+  forall n rootk prefix maxKeys st marker,
+    map snd (fst (run_m n ae rootk prefix maxKeys delim st marker)) =
+      paginate n ae rootk prefix maxKeys delim st marker /\
+    map fst (fst (run_m n ae rootk prefix maxKeys delim st marker)) =
+      markers n ae rootk prefix maxKeys delim st marker /\
+    snd (run_m n ae rootk prefix maxKeys delim st marker) = rootk.
+Proof. exact run_m_eq. Qed.
+Print Assumptions c27_list_readonly_partial.
+
+(* With delimiter and without -allowEmptyFolder folders ARE deleted (by design those
+   without any file); non-vacuity of the threaded model on such a bucket: *)
+Example c27_list_deletes_empty_folders_example :
+  let t := [File "a"; Dir "d" [Dir "g" []; Dir "k" [File "a"]]; Dir "e" [Dir "h" []]; File "f"] in
+  let r := run_m 14 false t "" 1 true V2Token "" in
+  wf t = true /\
+  snd r = [File "a"; Dir "d" [Dir "k" [File "a"]]; File "f"] /\
+  lists_equal_keys t (snd r) = true.
+Proof. exact list_deletes_empty_folders. Qed.
+Print Assumptions c27_list_deletes_empty_folders_example.
